@@ -31,7 +31,7 @@ func pickDur(w *vsim.World, label string, set ...time.Duration) time.Duration {
 func drawKnobs(w *vsim.World) knobs {
 	s := time.Second
 	k := knobs{
-		ProbeInterval:       pickDur(w, "k-probe", 5*s, 2*s, 10*s),
+		ProbeInterval:       pickDur(w, "k-probe", 5*s, 2*s, 10*s, s/2),
 		SyncInterval:        pickDur(w, "k-sync", 5*s, 2*s, 20*s, 60*s),
 		PollInterval:        pickDur(w, "k-poll", 5*s, 2*s, 10*s),
 		TimeoutBooting:      pickDur(w, "k-tboot", 60*s, 20*s, 600*s),
@@ -126,6 +126,14 @@ func (s *sim) call(inc *incarnation, kind, key string, send func() (time.Duratio
 	type sent struct {
 		lat time.Duration
 		res any
+	}
+	if kind == "ssh" || kind == "api" {
+		// the request itself travels for a while before the remote side acts on it: a
+		// probe may be sent before, and evaluated after, another command took effect
+		out := w.Park(kind+"-out", key, nil, func() any {
+			return s.lat(kind+"-out-lat", time.Millisecond, 20*time.Millisecond, 300*time.Millisecond, 2*time.Second)
+		}).(time.Duration)
+		time.Sleep(out)
 	}
 	r := w.Park(kind+"-send", key, nil, func() any {
 		if inc != nil && inc.dead {
